@@ -8,8 +8,9 @@ operands with *which* comparison on *which* branch, for all inputs:
   _closed      bracket parsing: '(' ')' 'o' 'O' are open, '[' ']' 'c' 'C' closed, anything else raises ValueError
   _df_slice    the value returned is the two-step mask selection the statement prescribes - lower bound first, `>=` / `>` and `<=` / `<`
                chosen by the bracket booleans, a time-of-day bound compared with index.time, bounds of a timeseries normalised with dt() -
-               or, only when the brackets make pandas' own label slice equivalent (closed-closed on a timeseries, closed-open otherwise)
-               and that slice does not raise, `df[lb:ub]`; non-pandas / empty / unbounded input passes through; ValueError only for
+               or, only when the brackets make pandas' own slice equivalent (closed-closed label slice on a timeseries; for objects that are
+               not timeseries - about which the statement says nothing - the closed-open guard is pinned as it is) and that slice does not
+               raise, `df[lb:ub]`; non-pandas / empty / unbounded input passes through; ValueError only for
                unparseable brackets
   df_slice     (a) bound lists: lb-only / ub-only / both; for every position i the i-th call of _df_slice receives series pi(i) with its own
                bound and the neighbouring bound of the *sorted* order (pi = identity for non-decreasing bounds, reversal otherwise), the
